@@ -63,10 +63,10 @@ func (w *tap) RegisterPull(h common.Hash128) {
 	atomic.AddInt64(&w.regs, 1)
 }
 func (w *tap) AddPendingPush(id peer.ID, h common.Hash128) { w.real.AddPendingPush(id, h) }
-func (w *tap) Requests() chan pushpull.PendingPulls         { return w.out }
-func (w *tap) Run()                                         { w.real.Run() }
-func (w *tap) SetHolder(h pushpull.Holder)                  { w.real.SetHolder(h) }
-func (w *tap) RemovePull(h common.Hash128)                  { w.real.RemovePull(h) }
+func (w *tap) Requests() chan pushpull.PendingPulls        { return w.out }
+func (w *tap) Run()                                        { w.real.Run() }
+func (w *tap) SetHolder(h pushpull.Holder)                 { w.real.SetHolder(h) }
+func (w *tap) RemovePull(h common.Hash128)                 { w.real.RemovePull(h) }
 
 type annRec struct {
 	peer, hash int
